@@ -34,8 +34,10 @@ AlgOK(o) ==
        THEN \/ o.res = "SIZE"
             \/ (o.res = "ERR" /\ after.res = "ERR" /\ o.code \in after.codes)
        ELSE o.res = e.main.res /\ o.code \in e.main.codes
-    \* completion is not reported before the attached tasks have finished
-    /\ o.tasksPending = 0
+    \* completion (the data, to the end) is not reported before the attached tasks have finished; an error may be
+    \* reported earlier (another task or the data failed), and discarding a clone does not wait for tasks that
+    \* were attached below the point of cloning while other clones are still being read
+    /\ o.res = "DATA" => o.tasksPending = 0
     \* every side consumer observes what the chain was worth when its clone was made
     /\ \A i \in 1..Len(o.sides) :
           LET sd == o.sides[i] IN
